@@ -77,9 +77,9 @@ type GateInst struct {
 	history []string
 	C17     bool // evaluate the no-lingering invariants (C17) instead of C11's
 
-	groups   []*mGroup    // model: held groups in opening order
+	groups   []*mGroup      // model: held groups in opening order
 	accepted map[int]string // seq -> id for every accepted event
-	composed map[int]int  // seq -> number of compositions it appeared in
+	composed map[int]int    // seq -> number of compositions it appeared in
 }
 
 func NewGateInst(cfg GateCfg, c17 bool) *GateInst {
